@@ -183,3 +183,11 @@ def arithFrom (s d : Nat) : Nat → List Nat
   | 0 => []
   | n + 1 => s :: arithFrom (s + d) d n
 end Win
+
+namespace Win
+/-- **closed form of a time window** (hot source: the source wins ties against the operator's timers):
+window `k` of `window_with_time(span, shift)` subscribed at `t0` is open for arrival times in
+`(t0 + k·shift, t0 + k·shift + span]`. -/
+def inWin {α : Type} (span shift t0 k : Nat) (p : Nat × α) : Bool :=
+  decide (t0 + k * shift < p.1 ∧ p.1 ≤ t0 + k * shift + span)
+end Win
